@@ -16,6 +16,8 @@ Case lines:
      (harness/prog/src/fwd.rs).
  '107 <container> <tag> | call ; ..'  by-reference calls followed by a CONSUMING call (boxed object, boxed with context, group, cast!, into!): what the method saw of its
      own value (destructor not yet run, one live value), destructor once afterwards (harness/prog/src/consume.rs).
+ '111 <container> | call ; ..'  WRAPPED ASSOCIATED TYPES: a bank hands out its cells as borrowed / mutably borrowed / owned children, single-trait and group objects; which
+     cell a call returns depends on its argument and on the bank's state, so every call through a child must reach THAT child (harness/prog/src/assoc.rs).
  '109 <container> | 0'  a group whose optional traits have acronym-style names and identical method lists: every view reaches the requested trait's method (harness/prog/src/acro.rs).
  '108 <enabled> <container> | castop request ; ..'  group casts followed by calls (see C08).
 Monitor: results, argument digests seen by the implementation, final state, call log (same method, same instance, once) agree."""
@@ -47,11 +49,11 @@ def run_impl(lines):
 
 
 def model_line(l):
-    return "0 |" if l.startswith(("101 ", "102 ", "104 ", "105 ", "107 ", "109 ")) else l
+    return "0 |" if l.startswith(("101 ", "102 ", "104 ", "105 ", "107 ", "109 ", "111 ")) else l
 
 
 def compare(l, impl_rows, model_rows):
-    if l.startswith(("101 ", "102 ", "104 ", "105 ", "107 ", "109 ")):
+    if l.startswith(("101 ", "102 ", "104 ", "105 ", "107 ", "109 ", "111 ")):
         return True          # behavioural direct-vs-opaque runs: decided by the implementation-side monitor alone
     return impl_rows == model_rows
 
@@ -61,7 +63,12 @@ def nontrivial(l):
 
 
 def known_match(kf, l, fails):
-    return False
+    """F-C01-alias: a history that keeps two borrowed children of one `&self` method in use at once, and the only failure is that the first one reaches the second one's cell"""
+    if kf.get("id") != "F-C01-alias" or not l.startswith("111 "):
+        return False
+    ops = [o.split() for o in l.split("|", 1)[1].split(";")]
+    uses = any(len(o) == 3 and o[0] == "9" and o[1] != o[2] for o in ops)
+    return uses and bool(fails) and all("two_children_of_one_&self_method_in_use_at_once" in f for f in fails)
 
 
 def gen_cases(rng, tier):
@@ -76,6 +83,9 @@ def gen_cases(rng, tier):
     y, dy = G.consume_cases(rng.fork("consume"), tier)
     f = f + y + ["109 %d | 0" % k for k in (0, 1, 2)]
     d5.update(dy)
+    z, dz = G.assoc_cases(rng.fork("assoc"), tier)
+    f = f + z
+    d5.update(dz)
     g, d6 = G.fwd_ir_cases(rng.fork("fwdir"), tier)
     e = e + f + g
     d4.update(d5); d4.update(d6)
